@@ -107,7 +107,7 @@ theorem rfind_char_append (xs ys : Str) (c : Char) (h : c ∉ ys) : rfind (xs ++
 theorem isPrefixOf_append_self (p tl : Str) : p.isPrefixOf (p ++ tl) = true := by
   induction p with
   | nil => simp
-  | cons a as ih => simp [List.isPrefixOf, ih]
+  | cons a as ih => simp [ih]
 
 /-- `(xs + pat + tl).rfind(pat) == len(xs)` when `pat` does not occur again later -/
 theorem rfind_pat_append (xs pat tl : Str) (hp : pat ≠ []) (h : ∀ j, 0 < j → ¬ occursAt pat (pat ++ tl) j) :
@@ -124,7 +124,7 @@ theorem contains_false_no_occurrence (s p : Str) (h : contains s p = false) (k :
     simp only [contains] at h
     cases p with
     | nil => simp at h
-    | cons a as => simp [List.isPrefixOf]
+    | cons a as => simp
   | cons c cs ih =>
     simp only [contains, Bool.or_eq_false_iff] at h
     cases k with
